@@ -392,6 +392,22 @@ def _impl_to(case):
     pmf2 = np.asarray(est._pmf_predict(X2, sensitive_features=s2), dtype=float)
     res["perm_idx"] = idx
     res["pmf_perm"] = [[float(a), float(b)] for a, b in pmf2]
+    # the SAME feature-table object asked again with OTHER sensitive features (all rows moved to one group) and
+    # after an in-place change of its scores: the answer must be the one a fresh table object gets
+    import copy as _copy
+    const_sf = np.array([sq[0]] * len(sq), dtype=sq.dtype)
+    again = np.asarray(est._pmf_predict(Xq, sensitive_features=const_sf), dtype=float)
+    fresh = np.asarray(est._pmf_predict(_copy.deepcopy(Xq), sensitive_features=const_sf.copy()), dtype=float)
+    res["same_object_other_sf_ok"] = bool(np.array_equal(again, fresh))
+    Xm = _copy.deepcopy(Xq)
+    first = np.asarray(est._pmf_predict(Xm, sensitive_features=sq), dtype=float)
+    try:
+        Xm.iloc[:, 0] = Xm.iloc[::-1, 0].to_numpy()       # reverse the score column in place
+    except Exception:
+        Xm[:, 0] = Xm[::-1, 0].copy()
+    second = np.asarray(est._pmf_predict(Xm, sensitive_features=sq), dtype=float)
+    fresh2 = np.asarray(est._pmf_predict(_copy.deepcopy(Xm), sensitive_features=sq), dtype=float)
+    res["same_object_modified_ok"] = bool(np.array_equal(second, fresh2))
     # single-row query (a table with one row must give the same entry)
     X1, s1 = frame([idx[0]])
     res["pmf_single"] = [float(v) for v in np.asarray(est._pmf_predict(X1, sensitive_features=s1)).reshape(-1)]
@@ -792,6 +808,13 @@ def compare(case, out, model):
                           f"query row {i} gets {pmf[i]} in one table and {out['pmf_perm'][j]} in a permuted / "
                           f"duplicated one", "the reported row depends only on (group, score)", "property"))
                 break
+        if any(abs(a - b) > TOL for a, b in zip(out["pmf_single"], pmf[out["perm_idx"][0]])):
+            pass
+        if out.get("same_object_other_sf_ok") is False or out.get("same_object_modified_ok") is False:
+            v.append((f"{PID}/{ep}/_pmf_predict/depends-on-earlier-calls",
+                      "asking the same feature-table object again (with other sensitive features / after an in-place "
+                      "change) does not give what a fresh table object gets",
+                      "the reported row depends only on (group, score) of the arguments of THIS call", "property"))
         if any(abs(a - b) > TOL for a, b in zip(out["pmf_single"], pmf[out["perm_idx"][0]])):
             v.append((f"{PID}/{ep}/_pmf_predict/depends-on-other-rows", "single-row table differs",
                       "the reported row depends only on (group, score)", "property"))
